@@ -295,6 +295,54 @@ func main() {
 		}
 		return true
 	})
+	// the order of Store's calls: the entry must be marked BEFORE anything is removed or written
+	var storeCalls []string
+	ast.Inspect(store.Body, func(n ast.Node) bool {
+		c, ok := n.(*ast.CallExpr)
+		if !ok {
+			return true
+		}
+		arg := func(i int) string {
+			if i < len(c.Args) {
+				if r := roles[ident(c.Args[i])]; r != "" {
+					return r
+				}
+			}
+			return "other"
+		}
+		switch callName(c) {
+		case recv(store) + ".markDir":
+			storeCalls = append(storeCalls, "mark-"+arg(0))
+		case "fs.RemoveAll", "os.RemoveAll":
+			storeCalls = append(storeCalls, "remove-"+arg(0))
+		case recv(store) + ".storeFiles":
+			storeCalls = append(storeCalls, "store")
+		case "os.Rename":
+			storeCalls = append(storeCalls, "rename-"+arg(0)+"-"+arg(1))
+		}
+		return true
+	})
+	out.Def("storeCalls", "List String", xlib.LeanStrList(storeCalls))
+	// retrieveFiles: exists test, then markDir of the entry, then the restoring
+	rfn := f.Func("dirCache.retrieveFiles")
+	rfP := paramNames(rfn)
+	var retrCalls []string
+	ast.Inspect(rfn.Body, func(n ast.Node) bool {
+		c, ok := n.(*ast.CallExpr)
+		if !ok {
+			return true
+		}
+		switch name := callName(c); {
+		case strings.HasSuffix(name, ".PathExists") && len(c.Args) == 1 && ident(c.Args[0]) == rfP[1]:
+			retrCalls = append(retrCalls, "exists-entry")
+		case name == recv(rfn)+".markDir" && len(c.Args) == 2 && ident(c.Args[0]) == rfP[1]:
+			retrCalls = append(retrCalls, "mark-entry")
+		case name == recv(rfn)+".retrieveCompressed" || name == "fs.RecursiveLink":
+			retrCalls = append(retrCalls, "restore")
+		}
+		return true
+	})
+	out.Def("retrieveCalls", "List String", xlib.LeanStrList(retrCalls))
 	out.Def("tmpSuffix", "String", xlib.LeanStr(tmpSuffix))
 	out.Def("tmpSuffixBytes", "List Nat", bytesOf(tmpSuffix))
 	out.Def("storeMarks", "List String", xlib.LeanStrList(storeMarks))
